@@ -13,7 +13,11 @@ sdnotify.socket.  The extracted Coq model (coq/Model/ClientLife.v) is run on the
 same environment scripts and the two event traces are compared.
 FirewallClient.__init__ (which process becomes the helper) is run for real twice over: on scripted candidates (Popen
 replaced by an in-process end of the real socketpair: absent / exits at once with any status / prints anything / READY at
-any line), compared with Model/FwInit.v, and on real stand-in `sudo` programs in front of the real stub helper process."""
+any line), compared with Model/FwInit.v, and on real stand-in `sudo` programs in front of the real stub helper process.
+Tunnel-end part (tunnel_end_check): the REAL ssnet.runonce / Mux.handle / fill / flush / callback under the REAL `while 1`
+loop of client._main on a scripted ssh channel with the kernel's select semantics (a select without timeout that has
+nothing ready sleeps; end of file keeps a descriptor readable), the tunnel ending in every way while ssh's exit status
+becomes visible 0, 1, 2, ... looks later or never: the client must close the control channel and never sleep for ever."""
 import os
 import socket as real_socket
 import sys
@@ -30,12 +34,17 @@ RULE = ("environment scripts x injection points: mostly-valid client life cycles
         "notification socket; helper candidates: administrator or not x sudo/doas found or not x OpenBSD or not x per candidate (cannot be "
         "started, exits with a status before/after speaking, junk lines, READY at line 1..103) x method x verbosity x --syslog x PYTHONPATH prefix, "
         "and real stand-in sudo programs (lecture, refusal, running something else) in front of a real helper process; plus random scripts with "
-        "several faults; a case is non-trivial when _main got past ssh.connect; distinct by script text")
+        "several faults; a case is non-trivial when _main got past ssh.connect; distinct by script text; "
+        "tunnel end under the real runonce: messages before the end (none / ROUTES / HOST_LIST / PING with ssh's stdin writable or full / "
+        "PONG / stray data) x segmentation x how it ends (EOF alone, with the last message, after EXIT at once or later, inside a message, "
+        "ECONNRESET) x ssh exit status visible after k = 0, 1, 2, ... looks or never x exit status x daemon on/off, listeners idle")
 TRUSTED_BASE = [
     "modelled, not verified: CPython try/finally and exception replacement semantics, OSError errno->subclass mapping "
     "(PermissionError for EACCES/EPERM), Popen.wait returning a preset returncode, blocking raw read(n) returning 1..n bytes",
     "the fake objects of harness/props/c12.py stand for ssh (process + pipe), the helper (process + pipe), os.fork/open/"
     "unlink/kill, the systemd notification socket and ssnet.runonce's select-driven dispatch",
+    "tunnel-end part: TunChan/TunW/tun_select of harness/props/c12.py stand for the kernel's view of ssh's stdout/stdin (readable = bytes, "
+    "end of file or error pending, end of file is a state; writable unless the buffer is full, EPIPE once ssh is gone) and for select()",
     "helper candidates: the scripted candidate holds the other end of the REAL socketpair the constructor creates (lines, then end of output unless it is a verified helper); "
     "which(), is_admin_user(), platform.platform() are table stubs; real stand-in `sudo` = a shell script that prints / refuses / execs its command",
     "closing the control channel makes the helper restore the firewall: that is property C04 (helper side, firewall.py:365-371), "
@@ -46,8 +55,13 @@ ASSUMPTIONS = [
     "exceptions are raised synchronously at the modelled steps; a signal arriving between `finally:` and fw.done() is not modelled "
     "(process exit then closes the pipe, which the helper sees as EOF as well)",
     "daemonize(): the model continues in the grandchild; the two fork()s return 0",
-    "a dead tunnel with a live ssh process (mux EOF without ssh exiting) is outside the property text and not detected by the client",
-    "scripted ssnet.runonce: message dispatch goes through the real Mux.got_packet, but select/fill/flush are C07's and C01's",
+    "scripted ssnet.runonce (life-cycle part): message dispatch goes through the real Mux.got_packet, but select/fill/flush are C07's "
+    "and C01's; that the loop REACHES its next look at ssh after the tunnel ended is checked by the tunnel-end part on the real runonce",
+    "tunnel-end part: the death of ssh shows as end of file or a read error on the ssh channel (an ssh that dies while another process keeps "
+    "its channel open wakes no select-driven loop: outside the property text); its exit status becomes visible to poll()/kill(pid,0) at the "
+    "same moment or any number of looks later; no new connection arrives at the listeners; a select() without timeout with nothing ready "
+    "and nothing left to arrive = the client sleeps for ever (implementation-side oracle: the Coq model has no select; "
+    "c12_dead_ssh_loop / c12_dead_ssh presuppose that the next iteration is reached)",
 ]
 
 SYNC = b"\0\0SSHUTTLE0001"
@@ -69,6 +83,16 @@ class Stop(BaseException):
 
 
 HANGS = [0]
+
+
+class Asleep(BaseException):
+    """tunnel-end part: the client called select() without a timeout, nothing in its wait sets is ready and nothing
+    will ever become ready (every event of the environment script has happened): the process sleeps for ever.  Raised
+    by the fake select only to get the harness out of the client's loop; the trace is cut at the `Sleeps` event."""
+
+
+class StillLooping(BaseException):
+    """tunnel-end part: the loop is still turning a bounded number of iterations after the tunnel ended"""
 
 
 class HarnessWatchdog(BaseException):
@@ -121,6 +145,10 @@ def canon_exc(e):
             return "Fatal.HelperDied"
         if m == "injected":
             return "Fatal.Injected"
+        if m.startswith("socket ") and m.endswith("was not used by any handler"):
+            return "Fatal.UnusedDescriptor"
+        if m.startswith("other end: "):
+            return "Fatal.OtherEnd"
         return "Fatal.?" + m[:40].replace(" ", "_")
     if isinstance(e, OSError):
         return "OSError.%d" % (e.errno or 0)
@@ -176,7 +204,11 @@ def impl_run(s, real_helper=None):
 
     trace = []
     st = {"it": 0, "polled0": False, "forked": False, "closed": False, "after_close_io": 0, "go": False,
-          "consumed": b"", "sync_emitted": False}
+          "consumed": b"", "sync_emitted": False,
+          # tunnel-end part (s["tunnel"]): the real ssnet.runonce on a scripted ssh channel
+          "polls_after_end": 0, "its_after_end": 0, "selects": [], "dead_reported": False, "ran_after_dead": False,
+          "end_read": None}
+    tun = s.get("tunnel")
 
     def sync_consumed():
         # observed at the boundary only (independent of what the client logs): the client has read,
@@ -238,7 +270,131 @@ def impl_run(s, real_helper=None):
         def flush(self):
             pass
 
+    class TunChan(FakeR):
+        """ssh's stdout in the tunnel-end part: the handshake chunks as before, then what the kernel holds for the
+        client: bytes delivered so far, end of file, a pending error.  The environment's deliveries (`batches`) happen
+        when the client sleeps in select (or are there already).  As with a real socket or pipe, end of file is a
+        STATE: select reports the descriptor readable every time and every read returns b''."""
+        def __init__(self):
+            FakeR.__init__(self)
+            self.avail = b""
+            self.eof = False
+            self.err = False
+            self.end_delivered = False
+            self.pending = [list(b) for b in tun["batches"]]
+            self.nread = 0
+
+        def deliver_next(self):
+            if not self.pending:
+                return False
+            for item in self.pending.pop(0):
+                if item == "EOF":
+                    self.eof = self.end_delivered = True
+                elif item == "ERR":
+                    self.err = self.eof = self.end_delivered = True
+                else:
+                    self.avail += bytes.fromhex(item)
+            return True
+
+        def readable(self):
+            return bool(self.avail) or self.eof or self.err
+
+        def read(self, n=-1):
+            if self.chunks:
+                return FakeR.read(self, n)
+            if self.avail:
+                d = self.avail if n < 0 else self.avail[:n]
+                self.avail = self.avail[len(d):]
+                self.nread += len(d)
+                if tun.get("exit_at") is not None and st["end_read"] is None and self.nread >= tun["exit_at"]:
+                    st["end_read"] = "EXIT"
+                return d
+            if self.err:
+                self.err = False
+                st["end_read"] = st["end_read"] or "ERR"
+                raise OSError(104, os.strerror(104))
+            if self.eof:
+                st["end_read"] = st["end_read"] or "EOF"
+                return b""
+            raise BlockingIOError(11, os.strerror(11))
+
+    class TunW(FakeW):
+        """ssh's stdin: once ssh is gone a write fails with EPIPE (and select calls the descriptor writable)"""
+        def write(self, b):
+            if st["chan"].end_delivered:
+                raise OSError(32, os.strerror(32))
+            return len(b)
+
+    LSOCK = type("ListenerSocket", (), {"fileno": lambda self: 7, "__repr__": lambda self: "<listener>"})()
+
+    def tun_select(r, wl, x, timeout=None):
+        """select() with the kernel's semantics on the scripted descriptors: the ssh channel is readable when bytes,
+        end of file or an error are waiting; ssh's stdin is writable unless the script says its buffer is full (always
+        once ssh is gone); the listeners are idle.  Without a timeout an empty answer is impossible: the process
+        sleeps until the environment's next delivery, and for ever when there is none (stream_common.World.fake_select
+        has the same rule)."""
+        chan, wchan = st["chan"], st["wchan"]
+
+        def ready():
+            rr = [o for o in r if o is chan and chan.readable()]
+            ww = [o for o in wl if o is wchan and (chan.end_delivered or not tun.get("wfull"))]
+            return rr, ww
+
+        def name(o):
+            return "ssh-channel" if o is chan else "ssh-stdin" if o is wchan else "listener" if o is LSOCK else repr(o)
+        rr, ww = ready()
+        if timeout is None:
+            asked = "r=[%s] w=[%s]" % (",".join(map(name, r)), ",".join(map(name, wl)))
+            while not rr and not ww:
+                if not chan.deliver_next():
+                    st["selects"].append(asked + " -> nothing ready, nothing will be: sleeps")
+                    rec("Sleeps(%s)" % asked.replace(" ", ";"))
+                    raise Asleep()
+                rr, ww = ready()
+            st["selects"].append(asked + " -> ready r=[%s] w=[%s]" % (",".join(map(name, rr)), ",".join(map(name, ww))))
+        return rr, ww, []
+
+    class SelShim:
+        error = OSError
+        select = staticmethod(tun_select)
+
+    def tun_dead():
+        """the exit status of ssh: not visible before the channel's end has reached the client's kernel, and then only
+        after `k` further looks (None = never within this run: a wrapper still running, a zombie not yet there)"""
+        if not st["chan"].end_delivered:
+            return None
+        st["polls_after_end"] += 1
+        if tun["k"] is not None and st["polls_after_end"] > tun["k"]:
+            st["dead_reported"] = True
+            return tun["rv"]
+        return None
+
+    real_runonce = ssnet.runonce
+
+    def tun_runonce(handlers, mux):
+        """the REAL ssnet.runonce, counted"""
+        st["it"] += 1
+        if st["dead_reported"]:
+            st["ran_after_dead"] = True
+        if st["chan"].end_delivered:
+            st["its_after_end"] += 1
+            if st["its_after_end"] > (tun["k"] if tun["k"] is not None else 4) + 3:
+                rec("StillLooping(%d)" % st["its_after_end"])
+                raise StillLooping()
+        return real_runonce(handlers, mux)
+
+    real_got_packet = ssnet.Mux.got_packet
+
+    def tun_got_packet(self_, channel, cmd, data):
+        if cmd == CMD_ROUTES:
+            rec("Routes")
+        elif cmd == CMD_HOST_LIST:
+            rec("HostList")
+        return real_got_packet(self_, channel, cmd, data)
+
     def dead_now():
+        if tun:
+            return tun_dead()
         i = st["it"]
         return s["iters"][i]["dead"] if i < len(s["iters"]) else None
 
@@ -255,6 +411,9 @@ def impl_run(s, real_helper=None):
         rec("Upload")
         if s["connect"] is not None:
             raise make_exc(s["connect"])
+        if tun:
+            st["chan"], st["wchan"] = TunChan(), TunW()
+            return SshProc(), st["chan"], st["wchan"]
         return SshProc(), FakeR(), FakeW()
 
     def fake_runonce(handlers, mux):
@@ -401,8 +560,9 @@ def impl_run(s, real_helper=None):
         def setsockopt(self, *a):
             pass
 
-        def add_handler(self, *a):
-            pass
+        def add_handler(self, handlers, callback, method, mux):
+            if tun:                                # as MultiListener.add_handler (client.py:137-150); never ready
+                handlers.append(ssnet.Handler([LSOCK], lambda sock: callback(sock, method, mux, handlers)))
 
         def print_listening(self, what):
             pass
@@ -524,7 +684,13 @@ def impl_run(s, real_helper=None):
              os.environ.get("NOTIFY_SOCKET"), getattr(client, "_pidname", None))
     saved_admin = client.is_admin_user
     ssh.connect = fake_connect
-    ssnet.runonce = fake_runonce
+    ssnet.runonce = tun_runonce if tun else fake_runonce
+    saved_tun = (ssnet.select, ssnet.set_non_blocking_io, ssnet.log)
+    if tun:
+        ssnet.select = SelShim
+        ssnet.set_non_blocking_io = lambda fd: None
+        ssnet.Mux.got_packet = tun_got_packet
+        ssnet.log = fake_log
     client.log = helpers.log = fake_log
     client.FirewallClient = RealChannelFW if real_helper else StubFW
     saved_which = client.which
@@ -560,6 +726,8 @@ def impl_run(s, real_helper=None):
         except HarnessWatchdog:
             HANGS[0] += 1
             rec("Exit(Hang)")
+        except (Asleep, StillLooping):
+            pass                                   # the trace is cut at the Sleeps / StillLooping event below
         except BaseException as e:
             rec("Exit(%s)" % canon_exc(e))
     finally:
@@ -572,6 +740,8 @@ def impl_run(s, real_helper=None):
         else:
             os.environ["NOTIFY_SOCKET"] = ns
         client._pidname = pidname
+        (ssnet.select, ssnet.set_non_blocking_io, ssnet.log) = saved_tun
+        ssnet.Mux.got_packet = real_got_packet
         client.is_admin_user = saved_admin
         client.which = saved_which
         sys.stdout, sys.stderr = so, se
@@ -581,6 +751,15 @@ def impl_run(s, real_helper=None):
         trace.append("WriteAfterClose")
     impl_run.iters_run = st["it"]
     impl_run.extra = extra
+    if tun:
+        # what the finally blocks did while the harness's own sentinel travelled up is not something the client did
+        for k, e in enumerate(trace):
+            if e.startswith("Sleeps(") or e.startswith("StillLooping("):
+                del trace[k + 1:]
+                break
+        impl_run.tun = {"selects": st["selects"], "polls_after_end": st["polls_after_end"], "end_read": st["end_read"],
+                        "iterations_after_end": st["its_after_end"], "ran_after_dead": st["ran_after_dead"],
+                        "left_unread": len(st["chan"].avail) if st.get("chan") else None}
     return trace
 
 
@@ -1163,7 +1342,145 @@ def init_dimension(ctx):
                 break
 
 
+# ----------------------------------------------------------------------
+# the tunnel ends while the client's loop runs: REAL ssnet.runonce under the REAL client._main loop
+#
+# The scripted runonce above answers "what does the loop do when poll() reports a status at iteration i"
+# (Props/C12.v c12_dead_ssh_loop / c12_dead_ssh: a non-None poll at any iteration => Fatal => FwClose).  Those
+# theorems PRESUPPOSE that the loop reaches its next look at ssh.  Whether it does is decided by ssnet.runonce's
+# select(), which has no timeout: the only thing that wakes the client when ssh dies is the end of the ssh channel,
+# and the exit status may become visible only a moment AFTER that end was read (a process closes its descriptors
+# before waitpid can report it; --ssh-cmd wrappers / sshpass exit after their child).  This part therefore runs the
+# real runonce, Mux.handle/fill/flush/callback and the real `while 1` loop on a scripted ssh channel with the
+# kernel's select semantics, listeners idle.  The oracle is implementation-side (the Coq model has no select).
+
+def _frame(cmd, data=b"", channel=0):
+    import struct
+    return struct.pack("!ccHHH", b"S", b"S", channel, cmd, len(data)) + data
+
+
+TUN_HOWS = ["eof", "eof_with_last_data", "exit+eof", "exit_then_eof", "eof_mid_frame", "read_error"]
+TUN_HOW_TEXT = {
+    "eof": "EOF on the ssh channel",
+    "eof_with_last_data": "EOF on the ssh channel, arriving together with the last message",
+    "exit+eof": "EXIT message and EOF on the ssh channel together",
+    "exit_then_eof": "EXIT message, EOF on the ssh channel a moment later",
+    "eof_mid_frame": "EOF on the ssh channel in the middle of a message",
+    "read_error": "ECONNRESET reading the ssh channel",
+}
+
+
+def tunnel_spec(how, k, rv, pre=("routes",), wfull=False, cuts=()):
+    """environment script of one tunnel life: messages `pre`, then the end `how`; ssh's exit status visible after k
+    further looks (None: not within the run).  cuts = byte positions at which the pre-end bytes are split into
+    separate deliveries."""
+    CMD_EXIT, CMD_PING, CMD_PONG, CMD_TCP_DATA = 0x4200, 0x4201, 0x4202, 0x4206
+    msgs = {"routes": _frame(CMD_ROUTES, b"2,10.9.0.0,16\n"), "hosts": _frame(CMD_HOST_LIST, b"host1.example,10.9.0.2\n"),
+            "ping": _frame(CMD_PING, b"rttest"), "pong": _frame(CMD_PONG, b"rttest"),
+            "stray": _frame(CMD_TCP_DATA, b"late bytes", channel=9)}
+    body = b"".join(msgs[m] for m in pre)
+    exit_at = None
+    if how in ("exit+eof", "exit_then_eof"):
+        body += _frame(CMD_EXIT)
+        exit_at = len(body)
+    if how == "eof_mid_frame":
+        body += _frame(CMD_HOST_LIST, b"host2.example,10.9.0.3\n")[:11]
+    pos = [0] + sorted(c for c in set(cuts) if 0 < c < len(body)) + [len(body)]
+    batches = [[body[a:b].hex()] for a, b in zip(pos, pos[1:]) if b > a]
+    end = "ERR" if how == "read_error" else "EOF"
+    if how in ("eof_with_last_data", "exit+eof", "eof_mid_frame") and batches:
+        batches[-1].append(end)
+    else:
+        batches.append([end])
+    return {"how": how, "k": k, "rv": rv, "pre": list(pre), "wfull": bool(wfull), "batches": batches, "exit_at": exit_at}
+
+
+def tunnel_run(tun, daemon=False, auto_nets=False):
+    s = base_script(daemon=daemon, auto_nets=auto_nets, iters=[], tunnel=tun)
+    tr = impl_run(s)
+    return tr, impl_run.tun
+
+
+def tunnel_oracle(tr, obs, tun):
+    """C12: `the death of the ssh process ... always results in the control channel to the helper being closed`,
+    and the title: interception exists only alongside a live tunnel.  Evaluated on what the client did after the
+    tunnel had ended: it must close the control channel within a bounded number of loop iterations; it must never
+    sleep for ever in a select() that nothing can wake; it must not run the loop again once a look at ssh has
+    reported it dead.  HOW the client leaves (Fatal from the ssh check, Fatal for the unused descriptor, EPIPE)
+    is not prescribed."""
+    bad = []
+    how = TUN_HOW_TEXT[tun["how"]]
+    kk = ("never visible" if tun["k"] is None else "visible at the client's next look (k=0)" if tun["k"] == 0 else
+          "not yet visible for k=%d polls" % tun["k"])
+    installed = "FwStart" in tr
+    tail = " — control channel never closed" + (", interception stays installed" if installed else "")
+    last = tr[-1] if tr else ""
+    if last.startswith("Sleeps("):
+        asked = last[len("Sleeps("):-1].replace(";", " ")
+        only = "on the listeners only" if "ssh-" not in asked else "on %s" % asked
+        bad.append("tunnel ended (%s), ssh exit status %s: client sleeps in select() %s%s" % (how, kk, only, tail))
+    elif last.startswith("StillLooping("):
+        bad.append("tunnel ended (%s), ssh exit status %s: client loop still turning %s iterations later%s"
+                   % (how, kk, last[len("StillLooping("):-1], tail))
+    elif "FwClose" not in tr:
+        bad.append("tunnel ended (%s): the client left without closing the control channel" % how)
+    if obs["ran_after_dead"]:
+        bad.append("tunnel ended (%s): the main loop kept running after ssh was found dead" % how)
+    # everything the general trace oracle says (order of install / confirm / ready, hang, run ended), minus its
+    # generic wording for what is reported above in this part's own words
+    for f in oracle(tr):
+        if f.startswith("try block entered but the helper channel was never closed") or f == "run did not end":
+            if bad:
+                continue
+        bad.append(f)
+    return bad
+
+
+def tunnel_cases(ctx):
+    rng = ctx.rng
+    cases = []
+    pres = [("routes",), (), ("routes", "hosts"), ("routes", "ping"), ("routes", "stray", "pong")]
+    for how in TUN_HOWS:
+        for k in (0, 1, 2, None):
+            for pre in pres:
+                for daemon in (False, True):
+                    for wfull in ((False, True) if "ping" in pre else (False,)):
+                        cases.append((tunnel_spec(how, k, rng.choice([255, 0, 1, -15]), pre, wfull), daemon, rng.random() < 0.3))
+    for _ in range(150 if ctx.quick() else 5000):
+        pre = tuple(rng.choice(["routes", "hosts", "ping", "pong", "stray"]) for _ in range(rng.randint(0, 4)))
+        if rng.random() < 0.8:
+            pre = ("routes",) + pre
+        cuts = [rng.randint(1, 80) for _ in range(rng.choice([0, 0, 1, 2, 4]))]
+        cases.append((tunnel_spec(rng.choice(TUN_HOWS), rng.choice([0, 1, 1, 2, 3, 5, None]), rng.choice([255, 0, 1, 99, -9, -15]),
+                                  pre, rng.random() < 0.3, cuts), rng.random() < 0.5, rng.random() < 0.3))
+    return cases
+
+
+def tunnel_end_check(ctx):
+    seen = set()
+    for tun, daemon, auto_nets in tunnel_cases(ctx):
+        key = ("tunnel_end", repr(sorted(tun.items(), key=lambda kv: kv[0])), daemon, auto_nets)
+        if key in seen:
+            continue
+        seen.add(key)
+        tr, obs = tunnel_run(tun, daemon, auto_nets)
+        ctx.count("tunnel_end_" + tun["how"])
+        ctx.count("tunnel_end_k_%s" % ("never" if tun["k"] is None else min(tun["k"], 3)))
+        ctx.count("tunnel_end_left_by_" + next((e[8:-1] for e in tr if e.startswith("MainEnd(")), "none"))
+        ctx.case(key, nontrivial="MainEnter" in tr,
+                 sample={"kind": "tunnel end under the real runonce", "tunnel": tun, "daemon": daemon, "trace": " ".join(tr),
+                         "selects": obs["selects"][-3:]} if ctx.rng.random() < 0.01 else None)
+        for f in sorted(set(tunnel_oracle(tr, obs, tun))):
+            ctx.violation(f, {"kind": "tunnel_end", "tunnel": tun, "daemon": daemon, "auto_nets": auto_nets, "trace": tr,
+                              "history": {"how_the_tunnel_ended": TUN_HOW_TEXT[tun["how"]],
+                                          "looks_at_ssh_answering_alive_after_the_end": tun["k"],
+                                          "what_select_was_asked_and_answered": obs["selects"],
+                                          "loop_iterations_after_the_end": obs["iterations_after_end"]}})
+    ctx.extra["tunnel_end_cases"] = len(seen)
+
+
 def correspondence(ctx):
+    tunnel_end_check(ctx)
     real_channel_check(ctx)
     init_dimension(ctx)
     cases = gen_cases(ctx)
@@ -1237,6 +1554,18 @@ def parse_line(ln):
 def replay(ctx, rp):
     """re-run a stored failing input against the real code; returns True if it still fails"""
     r = rp.get("replay", {})
+    if r.get("kind") == "tunnel_end":
+        tun = r["tunnel"]
+        tr, obs = tunnel_run(tun, r.get("daemon", False), r.get("auto_nets", False))
+        fails = tunnel_oracle(tr, obs, tun)
+        print("tunnel: messages %r, then %s; ssh exit status %s; ssh's stdin %s" % (
+            tun["pre"], TUN_HOW_TEXT[tun["how"]], "never visible" if tun["k"] is None else
+            "visible after %d more look(s): %d" % (tun["k"], tun["rv"]), "full" if tun["wfull"] else "writable"))
+        print("trace:", " ".join(tr))
+        for ln in obs["selects"]:
+            print("  select", ln)
+        print("property failures:", fails)
+        return bool(fails)
     if r.get("kind") == "init":
         c = r["init_case"]
         c["cands"] = dict((k, dict(v, lines=[bytes.fromhex(l) for l in v["lines"]])) for k, v in c["cands"].items())
